@@ -298,6 +298,7 @@ pub fn light_use<T: Transport>(d: &mut AnyDriver<T>, heavy: bool) -> Result<()> 
         }
         AnyDriver::NetRaw(n) => {
             n.send(&[0x55u8; 60])?;
+            n.send(&[])?;
             if heavy {
                 let mut rx = vec![0u8; 1600];
                 // SAFETY: `rx` outlives the request (completed or abandoned before drop below).
@@ -314,6 +315,7 @@ pub fn light_use<T: Transport>(d: &mut AnyDriver<T>, heavy: bool) -> Result<()> 
             let mut t = n.new_tx_buffer(64);
             t.packet_mut()[0] = 9;
             n.send(t)?;
+            n.send(n.new_tx_buffer(0))?;
         }
         AnyDriver::Rng(r) => {
             let mut b = [0u8; 16];
@@ -327,6 +329,23 @@ pub fn light_use<T: Transport>(d: &mut AnyDriver<T>, heavy: bool) -> Result<()> 
             let mut ci = ConnectionInfo::new(VsockAddr { cid: 2, port: 9 }, 1234);
             ci.buf_alloc = 64;
             s.connect(&ci)?;
+            // a packet with a payload: header and body are two buffers of one transmit chain;
+            // the peer's RESPONSE carries the credit that permits it
+            let guest = s.guest_cid();
+            with(|w| {
+                let p = crate::devices::vsock::Pkt { src_cid: 2, dst_cid: guest, src_port: 9, dst_port: 1234, len: 0, type_: 1, op: 2, flags: 0, buf_alloc: 4096, fwd_cnt: 0, payload: vec![], payload_len: 0 };
+                w.personality::<crate::devices::vsock::VsockDev>().outbound.push_back(p.encode());
+                w.drain_device();
+            });
+            let got = s.poll(|event, _| {
+                ci.update_for_event(&event);
+                Ok(Some(event))
+            })?;
+            if got.is_none() {
+                // the device has not delivered the RESPONSE yet (no credit: nothing to send)
+                return s.force_close(&ci);
+            }
+            s.send(&[1, 2, 3, 4, 5], &mut ci)?;
             s.force_close(&ci)?;
         }
         AnyDriver::Sound(s) => {
@@ -356,7 +375,7 @@ impl Kind {
             Kind::Blk | Kind::Rng | Kind::Rtc | Kind::P9 => &[0],
             Kind::Console | Kind::NetRaw | Kind::Net | Kind::Socket => &[1],
             Kind::Gpu => &[0, 1],
-            Kind::Sound => &[0],
+            Kind::Sound => &[0, 2],
             Kind::Input => &[],
         }
     }
